@@ -18,9 +18,8 @@
 //	      A<i> (Handle.WriteWithAssociatedData), N<i> (Handle.WriteWithNoSecrets), e.g. C1,E2,A2,N3
 //	Observation: W|c:<ok|err>,..|o:<ok:hex|err>;...  (bytes the shared binary writer emitted per write)
 //
-// Observation ("U" when the keyset holds one of the three key types whose
-// parser the shared model does not transcribe: PRF-based deriver and the two
-// composite ML-DSA kinds):
+// Observation ("U" when the keyset holds the one key type whose parser the
+// shared model does not transcribe, the PRF-based deriver):
 //
 //	c:<ok|err>            insecurecleartextkeyset.Read
 //	n: rn: rj:            keyset.NewHandleWithNoSecrets, ReadWithNoSecrets (binary, JSON)
@@ -57,6 +56,7 @@ import (
 	gcmsivpb "github.com/tink-crypto/tink-go/v2/proto/aes_gcm_siv_go_proto"
 	sivpb "github.com/tink-crypto/tink-go/v2/proto/aes_siv_go_proto"
 	chachapb "github.com/tink-crypto/tink-go/v2/proto/chacha20_poly1305_go_proto"
+	comppb "github.com/tink-crypto/tink-go/v2/proto/composite_ml_dsa_go_proto"
 	hkdfprfpb "github.com/tink-crypto/tink-go/v2/proto/hkdf_prf_go_proto"
 	hmacpb "github.com/tink-crypto/tink-go/v2/proto/hmac_go_proto"
 	hmacprfpb "github.com/tink-crypto/tink-go/v2/proto/hmac_prf_go_proto"
@@ -71,8 +71,8 @@ const tp = c14.TypePrefix
 // unmodelled5: the registered key types whose parser model/Untrusted.v does
 // not transcribe (unmodelled_urls of coq/model/UntrustedConsts.v); every
 // other registered type (37) and every unregistered URL is in C13's scope.
-var unmodelled5 = map[string]bool{ // three since the ML-DSA / JWT ML-DSA private-key parsers are transcribed
-	tp + "PrfBasedDeriverKey": true, tp + "CompositeMlDsaPublicKey": true, tp + "CompositeMlDsaPrivateKey": true,
+var unmodelled5 = map[string]bool{ // one left: its nested key TEMPLATE goes through every parameters parser
+	tp + "PrfBasedDeriverKey": true,
 }
 
 // inScope: a registered key type whose parser the model transcribes.
@@ -293,6 +293,24 @@ func c13Run(in string) string {
 
 // trueMaterial: the material a key of this type holds, whatever its label.
 func trueMaterial(url string, label tinkpb.KeyData_KeyMaterialType) tinkpb.KeyData_KeyMaterialType {
+	return trueMaterialOf(url, nil, label)
+}
+
+// trueMaterialOf also looks INTO a composite ML-DSA public key: its classical
+// slot holds the key data of another key type, and if that is a private key
+// type the "public" key carries private key material (finding
+// composite_public_key_carries_private_key: the parser accepts it).
+func trueMaterialOf(url string, value []byte, label tinkpb.KeyData_KeyMaterialType) tinkpb.KeyData_KeyMaterialType {
+	if url == tp+"CompositeMlDsaPublicKey" && value != nil {
+		v := &comppb.CompositeMlDsaPublicKey{}
+		if proto.Unmarshal(value, v) == nil {
+			for _, kd := range []*tinkpb.KeyData{v.GetClassicalPublicKey(), v.GetMlDsaPublicKey()} {
+				if strings.HasSuffix(kd.GetTypeUrl(), "PrivateKey") {
+					return tinkpb.KeyData_ASYMMETRIC_PRIVATE
+				}
+			}
+		}
+	}
 	if !c14.Modelled(url) && !c14.Unmodelled(url) {
 		return label // no parser: the fallback key keeps the KeyData as it came
 	}
@@ -439,7 +457,7 @@ func c13Check(in, obs string) string {
 		if !freeOfSecrets(kd.GetKeyMaterialType()) {
 			labelSecret = true
 		}
-		if !freeOfSecrets(trueMaterial(kd.GetTypeUrl(), kd.GetKeyMaterialType())) {
+		if !freeOfSecrets(trueMaterialOf(kd.GetTypeUrl(), kd.GetValue(), kd.GetKeyMaterialType())) {
 			trueSecret = true
 		}
 		values = append(values, kd.GetValue())
